@@ -164,6 +164,102 @@ TreeCancelled(O) ==
      \A c \in Rng(O.wf) : (c.parent # "" /\ By(Rng(O.tk), c.parent).wf = w.sid) =>
          (c.state \in Final /\ (c.state = "CANCELLED" => By(Rng(O.tk), c.parent).state = "CANCELLED"))
 
+(* ------------------------------- C08 ---------------------------------- *)
+\* The policy formulas look at a whole recorded run S (sequence of [ev, obs]) up to position l.
+FirstSeen(S, l, kind, sid) ==        \* first position at which the row exists (0 if never)
+  LET ks == {k \in 1..l : Has(Rng(IF kind = "tk" THEN S[k].obs.tk ELSE IF kind = "ax" THEN S[k].obs.ax ELSE S[k].obs.wf), sid)}
+  IN IF ks = {} THEN 0 ELSE CHOOSE k \in ks : \A j \in ks : k <= j
+DoneAt(S, l, kind, sid) ==           \* first position at which the row is in a final state (0 if never)
+  LET rows(k) == Rng(IF kind = "tk" THEN S[k].obs.tk ELSE IF kind = "ax" THEN S[k].obs.ax ELSE S[k].obs.wf)
+      ks == {k \in 1..l : Has(rows(k), sid) /\ By(rows(k), sid).state \in Final}
+  IN IF ks = {} THEN 0 ELSE CHOOSE k \in ks : \A j \in ks : k <= j
+TimeAt(S, k) == S[k].ev.now
+\* retry: at most count+1 attempts, none after the first success, final state = state of the last attempt
+AttemptBound(D, O, rerunSeen) ==
+  \A t \in Rng(O.tk) : (D.tasks[t.name].items = -1 /\ ~rerunSeen /\ ~t.isJoin) =>
+     Cardinality(Kids(O, t.sid)) <= D.tasks[t.name].retry + 1
+StopAtFirstSuccess(D, S, l) ==
+  LET O == S[l].obs IN
+  \A t \in Rng(O.tk) : (D.tasks[t.name].retry > 0 /\ D.tasks[t.name].items = -1 /\ ~D.tasks[t.name].failOn) =>
+     \A a, b \in Kids(O, t.sid) :
+        (a.state = "SUCCESS" /\ a.sid # b.sid) => FirstSeen(S, l, "ax", b.sid) <= FirstSeen(S, l, "ax", a.sid)
+FinalIffLast(D, S, l, rerunSeen, opSeen) ==
+  LET O == S[l].obs IN
+  (O.pend.quiet /\ ~rerunSeen /\ ~opSeen) =>
+  \A t \in Rng(O.tk) : (D.tasks[t.name].retry > 0 /\ D.tasks[t.name].items = -1 /\ D.tasks[t.name].timeout = 0
+                          /\ ~D.tasks[t.name].failOn /\ KidsAx(O, t.sid) # {} /\ t.state \in Final) =>
+     LET last == CHOOSE a \in KidsAx(O, t.sid) :
+                    \A b \in KidsAx(O, t.sid) : FirstSeen(S, l, "ax", b.sid) <= FirstSeen(S, l, "ax", a.sid)
+     IN (t.state = "SUCCESS") <=> (last.state = "SUCCESS")
+\* the delay between attempts is respected (virtual time)
+DelayRespected(D, S, l) ==
+  LET O == S[l].obs IN
+  \A t \in Rng(O.tk) : (D.tasks[t.name].retry > 0 /\ D.tasks[t.name].items = -1) =>
+     \A a, b \in KidsAx(O, t.sid) :
+        (a.sid # b.sid /\ FirstSeen(S, l, "ax", a.sid) < FirstSeen(S, l, "ax", b.sid) /\ DoneAt(S, l, "ax", a.sid) > 0)
+          => TimeAt(S, FirstSeen(S, l, "ax", b.sid)) >= TimeAt(S, DoneAt(S, l, "ax", a.sid)) + D.tasks[t.name].delay
+\* wait-before: the first action of the task is not created before the delay has elapsed
+WaitBeforeRespected(D, S, l) ==
+  LET O == S[l].obs IN
+  \A t \in Rng(O.tk) : (D.tasks[t.name].waitBefore > 0 /\ ~t.isJoin) =>
+     \A a \in Kids(O, t.sid) :
+        TimeAt(S, FirstSeen(S, l, IF Has(Rng(O.ax), a.sid) THEN "ax" ELSE "wf", a.sid))
+           >= TimeAt(S, FirstSeen(S, l, "tk", t.sid)) + D.tasks[t.name].waitBefore
+\* wait-after: the follow-up tasks are not created before the delay has elapsed - and they are not lost
+WaitAfterRespected(D, S, l) ==
+  LET O == S[l].obs IN
+  \A t \in Rng(O.tk) : (D.tasks[t.name].waitAfter > 0 /\ D.tasks[t.name].items = -1 /\ D.tasks[t.name].retry = 0) =>
+     \A u \in Rng(O.tk) : (t.sid \in Rng(u.trig) /\ ~u.isJoin) =>
+        \A a \in KidsAx(O, t.sid) : DoneAt(S, l, "ax", a.sid) > 0 =>
+           TimeAt(S, FirstSeen(S, l, "tk", u.sid)) >= TimeAt(S, DoneAt(S, l, "ax", a.sid)) + D.tasks[t.name].waitAfter
+\* timeout: a task still incomplete when its timeout expires ends in ERROR; one that completed in time is untouched
+TimeoutJudged(D, S, l, opSeen) ==
+  LET O == S[l].obs IN
+  (O.pend.quiet /\ ~opSeen) =>
+  \A t \in Rng(O.tk) : (D.tasks[t.name].timeout > 0 /\ ~t.isJoin /\ D.tasks[t.name].retry = 0 /\ D.tasks[t.name].items = -1
+                          /\ D.tasks[t.name].waitBefore = 0 /\ By(Rng(O.wf), t.wf).state # "PAUSED") =>
+     LET born == FirstSeen(S, l, "tk", t.sid)
+         \* position at which the task itself first reached a final state
+         fin  == DoneAt(S, l, "tk", t.sid)
+         started == {k \in 1..l : Has(Rng(S[k].obs.tk), t.sid) /\ By(Rng(S[k].obs.tk), t.sid).state = "RUNNING"}
+     IN (started # {} /\ fin > 0) =>
+          LET st == CHOOSE k \in started : \A j \in started : k <= j IN
+            \* finished strictly before the deadline => not failed by the timer
+            (TimeAt(S, fin) < TimeAt(S, st) + D.tasks[t.name].timeout) =>
+                 (\A k \in fin..l : By(Rng(S[k].obs.tk), t.sid).state = By(Rng(S[fin].obs.tk), t.sid).state)
+FailOnApplied(D, O) ==
+  \A t \in Rng(O.tk) : (D.tasks[t.name].failOn /\ t.state \in Final /\ D.tasks[t.name].retry = 0 /\ D.tasks[t.name].items = -1) =>
+     t.state # "SUCCESS"
+
+(* ------------------------------- C12 ---------------------------------- *)
+Ancestors(O, w) ==       \* enclosing executions of execution w (via parent tasks), w included
+  LET RECURSIVE Up(_)
+      Up(x) == IF x.parent = "" THEN {x.sid}
+               ELSE {x.sid} \cup Up(By(Rng(O.wf), By(Rng(O.tk), x.parent).wf))
+  IN Up(By(Rng(O.wf), w))
+\* an accepted rerun of an ERROR task puts its workflow, all enclosing workflows and their parent tasks back to RUNNING
+RerunRestores(P, O, ev) ==
+  (ev.kind = "op" /\ ev.what = "rerun" /\ ev.exc = "none" /\ ev.arg # "skip" /\ Has(Rng(P.tk), ev.target)
+      /\ By(Rng(P.tk), ev.target).state = "ERROR" /\ By(Rng(P.wf), By(Rng(P.tk), ev.target).wf).state \in {"ERROR", "RUNNING"})
+   => LET t == By(Rng(O.tk), ev.target) IN
+        \A a \in Ancestors(O, t.wf) :
+           /\ By(Rng(O.wf), a).state = "RUNNING"
+           /\ By(Rng(O.wf), a).parent # "" => By(Rng(O.tk), By(Rng(O.wf), a).parent).state = "RUNNING"
+\* skipping an ERROR task marks it SKIPPED at once
+SkipApplied(P, O, ev) ==
+  (ev.kind = "op" /\ ev.what = "rerun" /\ ev.exc = "none" /\ ev.arg = "skip" /\ Has(Rng(P.tk), ev.target)
+      /\ By(Rng(P.tk), ev.target).state = "ERROR" /\ By(Rng(P.wf), By(Rng(P.tk), ev.target).wf).state \in {"ERROR", "RUNNING"})
+   => By(Rng(O.tk), ev.target).state = "SKIPPED"
+\* at rest after a rerun: the task was re-executed (it has more children than when the rerun was issued)
+RerunReexecutes(Before, O, target, isItems) ==
+  (O.pend.quiet /\ Has(Rng(Before.tk), target) /\ ~isItems) =>
+      Cardinality(Kids(O, target)) > Cardinality(Kids(Before, target))
+\* with-items, reset = FALSE: an item that already succeeded is never executed again
+PartialRerunOnlyFailed(Before, O, target) ==
+  LET succeeded == {a.idx : a \in {x \in Kids(Before, target) : x.accepted /\ x.state = "SUCCESS"}}
+      new == {a \in Kids(O, target) : ~(\E b \in Kids(Before, target) : b.sid = a.sid)}
+  IN \A a \in new : a.idx \notin succeeded
+
 (* ------------------------------- C09 ---------------------------------- *)
 ParentMirrorsChild(D, O) ==
   O.pend.quiet => \A c \in Rng(O.wf) : (c.parent # "" /\ c.state \in Final /\ c.accepted) =>
